@@ -182,6 +182,13 @@ def names_module():
         m.add_func('', 'i', (), i32_const(300 + k))
         m.exports.append((n, 0, k))
         cases.append(Case('e%d' % k, '', 'i', 0, -1, 'export name %r' % n))
+    # non-exported functions whose DEBUG names (used as symbols under -g) are the escaped spellings of exports above, and plain duplicates of them
+    base_ = len(names)
+    dbg = {}
+    for j, dn in enumerate(['aX2Db', 'a___b', 'aX58b', 'aX2Eb', 'getX5FX2DX5Fa', 'get_X2D_a', 'mem_X24_0', 'if', '0']):
+        m.add_func('', 'i', (), i32_const(900 + j))
+        dbg[base_ + j] = dn
+    m.names = dbg
     b = Batch(m.encode(), cases, [('explicit', [()])])
     b.names = names
 
@@ -242,6 +249,7 @@ def main(tier):
         jobs.append(('config', b, {'cc': 'gcc', 'cflags': ('-O1',)}))
     jobs.append(('config', names_module(), {'cc': 'gcc', 'cflags': ('-O1',)}))
     jobs.append(('config', repeated_import_module(), {'cc': 'gcc', 'cflags': ('-O1',)}))
+    jobs.append(('config', names_module(), {'cc': 'gcc', 'cflags': ('-O0',), 'w2c2_args': ('-g',)}))
     # every configuration again in the pretty-printed output format: the instantiation writers (Init*, Instantiate, NewChild, export wrappers)
     # have their own -p branches
     jobs += [(label, b, dict(kw, w2c2_args=tuple(kw.get('w2c2_args', ())) + ('-p',))) for label, b, kw in list(jobs)]
